@@ -660,7 +660,7 @@ static std::string apply_random_token_fault_xml_unchecked(const std::string& x, 
 const char* model_fault_name(int f)
 {
     static const char* n[] = {"dup-location-name", "drop-argument",  "extra-argument",   "unknown-template", "dup-template-name", "system-no-semicolon",
-                              "dup-process",       "dup-declaration", "dup-parameter",   "foreign-target",   "init-is-branchpoint", "unknown-process"};
+                              "dup-process",       "dup-declaration", "dup-parameter",   "foreign-target",   "init-is-branchpoint", "unknown-process", "empty-template"};
     return f >= 0 && f < MF_COUNT ? n[f] : "?";
 }
 
@@ -770,6 +770,19 @@ bool apply_model_fault(Model& m, int fault, Rng& rng)
         if (!o)
             return false;
         t->edges[rng.below((uint32_t)t->edges.size())].dst_id_override = o->locs[rng.below((uint32_t)o->locs.size())].id;
+        return true;
+    }
+    case MF_EMPTY_TEMPLATE: {
+        if (m.templs.empty())
+            return false;
+        MTempl& t = m.templs[rng.below((uint32_t)m.templs.size())];
+        if (t.dynamic)
+            return false;
+        t.locs.clear();
+        t.bps.clear();
+        t.edges.clear();
+        t.decls.clear();
+        t.init = -1;
         return true;
     }
     case MF_INIT_IS_BRANCHPOINT: {
